@@ -2120,8 +2120,16 @@ class CodeGenerator(NodeVisitor):
         old_ctx_name = self.temporary_identifier()
         saved_ctx = frame.eval_ctx.save()
         self.writeline(f"{old_ctx_name} = context.eval_ctx.save()")
+        # the context can outlive this render (the module of an imported
+        # template), revert it also when the body raises or leaves a loop
+        self.writeline("try:")
+        self.indent()
         self.visit_EvalContextModifier(node, frame)
         for child in node.body:
             self.visit(child, frame)
+        self.outdent()
         frame.eval_ctx.revert(saved_ctx)
+        self.writeline("finally:")
+        self.indent()
         self.writeline(f"context.eval_ctx.revert({old_ctx_name})")
+        self.outdent()
